@@ -121,6 +121,33 @@ mod tests {
     use crate::roles::creator::Creator;
 
     #[test]
+    fn differing_value_sums_conflict_before_io_finalization() {
+        let base = Creator::new(BranchId::Nu6_3.into(), 10_000_000, 133, None, None)
+            .unwrap()
+            .build()
+            .unwrap();
+
+        let mut sapling = base.clone();
+        sapling.sapling.value_sum = 1;
+        let mut orchard = base.clone();
+        orchard.orchard.value_sum = (1, false);
+        let mut ironwood = base.clone();
+        ironwood.ironwood.value_sum = (1, true);
+
+        for other in [sapling, orchard, ironwood] {
+            for pczts in [
+                vec![base.clone(), other.clone()],
+                vec![other.clone(), base.clone()],
+            ] {
+                assert!(matches!(
+                    Combiner::new(pczts).combine(),
+                    Err(super::Error::DataMismatch)
+                ));
+            }
+        }
+    }
+
+    #[test]
     fn bsk_is_kept_in_either_order() {
         let without = Creator::new(BranchId::Nu6_3.into(), 10_000_000, 133, None, None)
             .unwrap()
